@@ -22,8 +22,10 @@ Oracle at every consultation (same instant, nothing else runs in between):
 """
 from __future__ import annotations
 
+import copy
 import json
 import os
+import pickle
 from typing import Any
 
 from checks import common
@@ -163,6 +165,10 @@ def gen_plan(seed: int, run: int, tier: str) -> dict:
             ks = [k for k in pool_names if rng.random() < p_inc]
             value[0] += 1
             s.append({"op": "add", "state": tell_state(), "value": float(value[0] % 7), "dists": {k: POOL[k][0] for k in ks}})
+        elif rng.random() < 0.12:
+            # the calculators go through pickle / deepcopy (samplers holding them are pickled
+            # for workers, studies are deep-copied) and are used on afterwards
+            s.append({"op": "reopen", "how": rng.choice(["pickle", "deepcopy"])})
         else:
             s.append({"op": "consult"})
     for n in names:
@@ -497,6 +503,13 @@ def _run(plan: dict, sim: sched.Sim, ch: sched.Chooser, dep: deploy.Deployment) 
                             # name already used in the study with an incompatible distribution
                             sim.count("add_incompatible")
                             sim.note(name, "add", "ValueError")
+                    elif k == "reopen":
+                        for ip in (False, True):
+                            for d in (ctx.inter, ctx.group):
+                                d[ip] = pickle.loads(pickle.dumps(d[ip])) if op.get("how") == "pickle" else copy.deepcopy(d[ip])
+                        sim.count("calculators_reopened:" + str(op.get("how")))
+                        sim.note(name, "reopen", op.get("how"))
+                        trace.append("%s calculators re-created by %s" % (name, op.get("how")))
                     elif k == "consult":
                         try:
                             _consult(sim, ctx, name, trace)
